@@ -375,6 +375,7 @@ func c12Config(c *Ctx, idx int) {
 	// once and be its own bytes with the consistency substituted
 	if len(set) > 0 {
 		c12Pipelined(c, rp, idx, cfgKey, set, inSet, override, isSelectID)
+		c12UndefinedConsistency(c, rp, idx, cfgKey, set)
 	}
 	// a SELECT prepared a moment ago is still a SELECT: PREPARE a statement nobody has seen (large result metadata), EXECUTE
 	// it the moment the reply arrives with a consistency inside the set; it must reach the backend unmodified
